@@ -46,6 +46,14 @@ FirstInvalidIn(w) == LET bad == SelectSeq(w, Invalid) IN IF bad = <<>> THEN 0 EL
 FirstInvalid(o) == FirstInvalidIn(Walk(o))
 FirstInvalidSorted == FirstInvalidIn(Sorted)
 
+\* ---- site 6: deciding on "the first two entries" of a map that may hold irrelevant entries (a residual with commodities
+\*      that cancelled to zero next to the two of an implied exchange).  An entry is irrelevant when its value is the
+\*      smallest of Vals (it stands for zero).  A guard `exactly two entries` makes taking the first two safe; a guard
+\*      `exactly two relevant entries` does not: which two are taken then depends on the walk.
+Relevant == {k \in DOMAIN m : ~Invalid(k)}
+FirstTwo(o) == IF Cardinality(Relevant) # 2 THEN {} ELSE {Walk(o)[1], Walk(o)[2]}
+TwoSelected == IF Cardinality(Relevant) # 2 THEN {} ELSE Relevant
+
 Init == /\ \E D \in SUBSET Keys : m \in [D -> Vals]
         /\ o1 \in Perms /\ o2 \in Perms
 Next == UNCHANGED hvars
@@ -58,6 +66,7 @@ SensitivePick == PickFirst(o1) # PickFirst(o2)
 SensitiveFold == FoldLastWins(o1) # FoldLastWins(o2)
 SensitiveFirst == FirstWins(o1) # FirstWins(o2)
 SensitiveInvalid == FirstInvalid(o1) # FirstInvalid(o2)
+SensitiveTwo == FirstTwo(o1) # FirstTwo(o2)
 
 \* a walk can differ between two processes only for these inputs ...
 ClassPrint == SensitivePrint => Cardinality(DOMAIN m) >= 2
@@ -65,16 +74,19 @@ ClassPick == SensitivePick => Cardinality(DOMAIN m) >= 2
 ClassFold == SensitiveFold => \E a, b \in DOMAIN m : a # b /\ m[a] # m[b]
 ClassFirst == SensitiveFirst => \E a, b \in DOMAIN m : a # b /\ m[a] # m[b]
 ClassInvalid == SensitiveInvalid => \E a, b \in DOMAIN m : a # b /\ Invalid(a) /\ Invalid(b)
+ClassTwo == SensitiveTwo => Cardinality(Relevant) = 2 /\ Cardinality(DOMAIN m) >= 3
 \* ... and for every such input some pair of orders does differ (checked as: the two orders "as met" vs "reversed")
 Reverse(o) == [i \in 1..Len(o) |-> o[Len(o) + 1 - i]]
 WitnessPrint == (o2 = Reverse(o1) /\ Cardinality(DOMAIN m) >= 2) => SensitivePrint
 WitnessPick == (o2 = Reverse(o1) /\ Cardinality(DOMAIN m) >= 2) => SensitivePick
 WitnessFold == (o2 = Reverse(o1) /\ Cardinality(DOMAIN m) >= 2 /\ m[Walk(o1)[1]] # m[Walk(o1)[Len(Walk(o1))]]) => SensitiveFold
 WitnessInvalid == (o2 = Reverse(o1) /\ \E a, b \in DOMAIN m : a # b /\ Invalid(a) /\ Invalid(b)) => SensitiveInvalid
+WitnessTwo == (o2 = Reverse(o1) /\ Cardinality(Relevant) = 2 /\ Cardinality(DOMAIN m) >= 3 /\ Invalid(Walk(o1)[1])) => SensitiveTwo
 \* the design variants are functions of the map alone
 DesignWellDefined == /\ Len(PrintSorted) = Cardinality(DOMAIN m)
                      /\ \A i, j \in 1..Len(Sorted) : i < j => Sorted[i] < Sorted[j]
                      /\ (RequireSingle # -1 => Cardinality(DOMAIN m) = 1)
+                     /\ (TwoSelected # {} => TwoSelected = Relevant /\ Cardinality(TwoSelected) = 2)
 
 \* the order-sensitive input classes, one record per map shape (emitted once per shape: o1 = o2 = sorted order)
 Identity == [i \in 1..Cardinality(Keys) |-> CHOOSE k \in Keys : Cardinality({j \in Keys : j < k}) = i - 1]
@@ -82,4 +94,5 @@ Shape == [n |-> Cardinality(DOMAIN m), distinct |-> Cardinality({m[k] : k \in DO
 EmitClass == (o1 = Identity /\ o2 = Reverse(o1)) =>
                PrintT(<<"CLASS", Shape.n, Shape.distinct, SensitivePrint, SensitivePick, SensitiveFold, SensitiveFirst>>)
                /\ PrintT(<<"CLASS5", Shape.n, Shape.invalid, SensitiveInvalid>>)
+               /\ PrintT(<<"CLASS6", Shape.n, Shape.invalid, Cardinality(Relevant) = 2 /\ Cardinality(DOMAIN m) >= 3>>)
 =============================================================================
